@@ -83,6 +83,8 @@ FORMULAS = {
     'DATEDIF.YM': '=DATEDIF(D1,F1,"YM")',
     'NETWORKDAYS': '=NETWORKDAYS(D1,F1)', 'NETWORKDAYS.H': '=NETWORKDAYS(D1,F1,H1:H6)',
     'TODAY': '=TODAY()', 'YEAR': '=YEAR(D1)', 'MONTH': '=MONTH(D1)', 'DAY': '=DAY(D1)',
+    # the same through a sheet whose title is a number (the usual name of a calendar sheet): holidays and dates live there
+    'NETWORKDAYS.H2': "=NETWORKDAYS(D1,F1,'2024'!A1:A6)", 'EDATE2': "=EDATE('2024'!D1,E1)", 'EOMONTH2': "=EOMONTH('2024'!D1,E1)", 'DAY2': "=DAY('2024'!D1)",
 }
 ADDR = {}
 
@@ -93,25 +95,49 @@ def base_tr():
         for i, (k, f) in enumerate(FORMULAS.items()):
             ADDR[k] = wbk.get_column_letter(10 + i)
             cells[f'{ADDR[k]}1'] = f
-        o = wbk.translate_model({'sheets': [{'title': 'S', 'cells': cells}]})
+        o = wbk.translate_model({'sheets': [{'title': 'S', 'cells': cells}, {'title': '0', 'cells': {'A1': 'decoy'}}, {'title': '2024', 'cells': {'G1': 'calendar'}}]})
         if o[0] != 'value':
             raise env.HarnessError(f'C15 base workbook does not translate: {o}')
         _TR['o'] = o[1]
     return _TR['o']
 
 
+_REUSE = {}
+
+
 def ev(keys, **cells):
     tr = base_tr()
+    if 'H' not in cells and cells and sum(map(ord, repr(sorted(cells.items(), key=str)))) % 2:
+        # every second point goes through one long-lived executor and through the very Cell objects of the calls before: their
+        # values are changed in place and handed over again (what an application that recalculates in a loop does)
+        if 'ex' not in _REUSE:
+            _REUSE['ex'], _REUSE['cells'] = tr.executor(), {}
+        ex = _REUSE['ex']
+        cl = []
+        for name, v in cells.items():
+            for title in (('S', '2024') if name == 'D' else ('S',)):
+                c = _REUSE['cells'].setdefault((title, name), wbk.Cell(title, name, '1'))
+                c.value = v
+                cl.append(c)
+        o_set = wbk.outcome(lambda: ex.set_cells(cl))
+        if o_set[0] != 'value':
+            return {k: o_set for k in keys}
+        return {k: tr.get('S', ADDR[k], '1', ex) for k in keys}
     ex = tr.executor()
     cl = []
     for name, v in cells.items():
         if name == 'H':
             for i, h in enumerate(v):
                 cl.append(wbk.Cell('S', 'H', str(i + 1), h))
+                cl.append(wbk.Cell('2024', 'A', str(i + 1), h))
         else:
             cl.append(wbk.Cell('S', name, '1', v))
+            if name == 'D':
+                cl.append(wbk.Cell('2024', 'D', '1', v))
     if cl:
-        ex.set_cells(cl)
+        o_set = wbk.outcome(lambda: ex.set_cells(cl))
+        if o_set[0] != 'value':
+            return {k: o_set for k in keys}
     return {k: tr.get('S', ADDR[k], '1', ex) for k in keys}
 
 
@@ -141,9 +167,9 @@ def run_point(case):
         return fails, 4
     if fn in ('EDATE', 'EOMONTH'):
         s = wbk.dec(case['start'])
-        outs = ev(['EDATE', 'EOMONTH', 'YEAR', 'MONTH', 'DAY'], D=s, E=case['n'])
+        outs = ev(['EDATE', 'EOMONTH', 'YEAR', 'MONTH', 'DAY', 'EDATE2', 'EOMONTH2', 'DAY2'], D=s, E=case['n'])
         for k, e in (('EDATE', o_edate(s, case['n'])), ('EOMONTH', o_eomonth(s, case['n'])), ('YEAR', s.year),
-                     ('MONTH', s.month), ('DAY', s.day)):
+                     ('MONTH', s.month), ('DAY', s.day), ('EDATE2', o_edate(s, case['n'])), ('EOMONTH2', o_eomonth(s, case['n'])), ('DAY2', s.day)):
             f = mismatch(case, e, outs[k], k)
             if f:
                 fails.append(f)
@@ -160,8 +186,9 @@ def run_point(case):
         s, e = wbk.dec(case['start']), wbk.dec(case['end'])
         hol = [wbk.dec(h) for h in case.get('holidays', [])]
         if case.get('with_arg'):
-            outs = ev(['NETWORKDAYS.H'], D=s, F=e, H=hol)
-            f = mismatch(case, o_networkdays(s, e, hol), outs['NETWORKDAYS.H'], 'NETWORKDAYS.H' + (':reversed' if s > e else ''))
+            outs = ev(['NETWORKDAYS.H', 'NETWORKDAYS.H2'], D=s, F=e, H=hol)
+            f = mismatch(case, o_networkdays(s, e, hol), outs['NETWORKDAYS.H'], 'NETWORKDAYS.H' + (':reversed' if s > e else '')) or \
+                mismatch(case, o_networkdays(s, e, hol), outs['NETWORKDAYS.H2'], 'NETWORKDAYS.H:digit-titled-sheet')
         else:
             outs = ev(['NETWORKDAYS'], D=s, F=e)
             f = mismatch(case, o_networkdays(s, e, []), outs['NETWORKDAYS'], 'NETWORKDAYS' + (':reversed' if s > e else ''))
